@@ -317,6 +317,9 @@ def run(chk, ctx):
     round4.failed_fanout_torn_down(chk, ctx)     # held events of a caught fan-out failure are never acknowledged
     round4.gate_index_default(chk, ctx)          # join state that is never released
     round4.teardown_after_terminal_notification(chk, ctx)
+    from . import round5
+    round5.dropped_message_is_forgotten(chk, ctx)
+    round5.orphan_timer_acks_retained(chk, ctx)
     c08.r4(chk, ctx)                         # 'no timer left behind': every completion path disarms the request's timer
     round3.timer_cleared_only_on_completion(chk, ctx)
     chk.assume("the broker redelivers unacknowledged messages (trusted)")
